@@ -180,3 +180,45 @@ def nonneg(sig: Optional[str]) -> bool:
 
 def nonpos(sig: Optional[str]) -> bool:
     return sig in ("-", "<=0", "0")
+
+
+# ---------------------------------------------------------------------------------------------------------- upper bounds
+def upper_bounds(r: Rat, facts_of, nonneg_only=(), depth: int = 0) -> List[Rat]:
+    """Expressions U with U >= r obtained by monotone rewriting: where r is non-decreasing in a rounding atom,
+    floor(e) -> e and int(e) -> e (for e >= 0: truncation towards zero), and min(S) -> each element of S.  Several
+    candidates come back when a min was opened.  An atom in which r is not provably non-decreasing stops the rewrite
+    (empty list): a LOWER bound of the atom would be needed, which rounding does not give exactly."""
+    if depth > 12:
+        return []
+    target = None
+    from ..norm import all_atoms_deep
+
+    def has_rounding(x) -> bool:
+        return any(isinstance(b, tuple) and b and b[0] in ("floor", "int") for b in all_atoms_deep(x))
+
+    for a in sorted(r.atoms(), key=repr):
+        if isinstance(a, tuple) and a and len(a) == 2 and (a[0] in ("floor", "int") or (
+                a[0] == "min" and isinstance(a[1], frozenset) and any(isinstance(e, Rat) and has_rounding(e) for e in a[1]))):
+            target = a       # a min of plain quantities (the range bounds) is left alone: only rounded values are opened
+            break
+    if target is None:
+        return [r]
+    sg = sign_of(derivative(r, target), facts_of(), nonneg_only)
+    if not nonneg(sg):
+        return []
+    outs: List[Rat] = []
+    if target[0] in ("floor", "int"):
+        e = target[1]
+        if not isinstance(e, Rat):
+            return []
+        if target[0] == "int" and not nonneg(sign_of(e, facts_of(), nonneg_only)):
+            return []
+        for ue in upper_bounds(e, facts_of, nonneg_only, depth + 1):
+            outs.extend(upper_bounds(subst(r, {target: ue}), facts_of, nonneg_only, depth + 1))
+    else:
+        for e in sorted(target[1], key=repr):
+            if not isinstance(e, Rat):
+                return []
+            for ue in upper_bounds(e, facts_of, nonneg_only, depth + 1):
+                outs.extend(upper_bounds(subst(r, {target: ue}), facts_of, nonneg_only, depth + 1))
+    return outs
